@@ -216,6 +216,17 @@ def scenarios(tier):
                 S.append(mk("sched-%s-%s-fineB" % (name, flowb), cfg, max_depth=90, max_states=300000))
             else:
                 S.append(mk("sched-%s-%s-bothfine" % (name, flowb), cfg, max_depth=120, max_states=3000000))
+    # the server hands the peer's messages over in another order (version or an application phase before the PAKE): equal codes must
+    # still agree, different codes must still be told apart
+    for name, ca, cb in reps[:1] + reps[2:]:
+        cfg = pair_cfg(ca, cb, "app1", "app1", False, "set")
+        cfg["same"] = nfc(ca) == nfc(cb)
+        cfg["monitors"] = [mon_sched]
+        cfg["final_monitors"] = [fin_sched]
+        cfg["coarse"] = [0]
+        cfg["reorder"] = 1 if tier == "quick" else 2
+        cfg["explored"] = ("down", "up", "api", "connect", "reorder")
+        S.append(mk("sched-%s-reorder" % name, cfg, max_depth=100, max_states=400000 if tier == "quick" else 3000000))
     return S
 
 
